@@ -1411,7 +1411,7 @@ package go9p
 //@     invariant i > 0 ==> true
 
 //@ func (*Ufs).Open(ufs, req)
-//@   property C18 C17 C06
+//@   property C18 C17 C06 C11
 //@   requires ufsreq(req)
 //@   ghost nopen int = 0
 //@   at call(os.OpenFile) ghost nopen := nopen + 1
@@ -1939,7 +1939,7 @@ package go9p
 
 //@ func (*Clnt).send(clnt)
 //@   opt lockcheck
-//@   property C10 C06 C19
+//@   property C10 C06 C19 C09
 //@   requires clnt != nil && clnt.conn != nil && nolocks()
 //@   at select(*) ensures ret0 == 1 ==> ret3 != nil && ret3.Tc != nil
 //@   at call(net.Conn.Write) ensures ret1 == nil ==> 0 <= ret0 && ret0 <= len(arg1)
